@@ -1,4 +1,4 @@
-"""Lexical layer: decimal lengths of token strings, int()/float() of described text (DESIGN 2.7)."""
+"""Lexical layer: decimal lengths of token strings, int()/float()/Decimal() of token strings (DESIGN 2.7)."""
 import z3
 
 from . import sym as S
@@ -38,42 +38,152 @@ def fmt_len(interp, v):
     return SInt(z3.simplify(total))
 
 
+def _fixed_width(interp, tok):
+    if tok.zero and tok.minwidth > 0:
+        if interp.ctx.branch(z3.And(tok.term >= 0, tok.term < 10 ** tok.minwidth)):
+            return tok.minwidth
+    return None
+
+
+def tokens_to_int(interp, toks):
+    """Value denoted by a digits-only token list (literal digits, zero-padded fields, one plain number)."""
+    acc = None      # None = nothing yet; else z3 term
+    started = False
+    for tok in toks:
+        if isinstance(tok, Lit):
+            if not tok.text.isdigit() or not tok.text.isascii():
+                raise ValueError("invalid literal for int() with base 10: %r" % (tok.text,))
+            v = int(tok.text)
+            acc = z3.IntVal(v) if acc is None else acc * 10 ** len(tok.text) + v
+        elif isinstance(tok, Dec):
+            if not interp.ctx.branch(tok.term >= 0):
+                if acc is None and not tok.zero:
+                    return SInt(tok.term)     # a plain negative rendering: '-ddd'
+                raise ValueError("invalid literal for int() with base 10")
+            w = _fixed_width(interp, tok)
+            if acc is None:
+                acc = tok.term
+            elif w is not None:
+                acc = acc * 10 ** w + tok.term
+            else:
+                # digits followed by a number of unknown width: only decidable when the prefix is all zeros
+                if z3.is_int_value(z3.simplify(acc)) and z3.simplify(acc).as_long() == 0:
+                    acc = tok.term
+                else:
+                    raise Unsupported("int() of digits followed by a number of unknown width")
+        else:
+            raise Unsupported("int() of token %r" % (tok,))
+    if acc is None:
+        raise ValueError("invalid literal for int() with base 10: ''")
+    return SInt(z3.simplify(acc))
+
+
 def lex_int(interp, v):
     if isinstance(v, FmtStr):
-        toks = v.tokens
-        if len(toks) == 1 and isinstance(toks[0], Dec):
-            # int(str(n)) == n  (assumed inverse pair of CPython, DESIGN 2.8); padding zeros are accepted
-            return SInt(toks[0].term)
-        if len(toks) == 2 and isinstance(toks[0], Lit) and toks[0].text in ('-', '+') and \
-                isinstance(toks[1], Dec):
-            # "-" followed by the rendering of a non-negative number
-            if interp.ctx.branch(toks[1].term >= 0):
-                return SInt(-toks[1].term if toks[0].text == '-' else toks[1].term)
-            raise ValueError("invalid literal for int() with base 10")
-        raise Unsupported("int() of token string %r" % (v,))
-    from .regexmodel import LexGroup
-    if isinstance(v, LexGroup):
-        return v.to_int(interp)
+        toks = list(v.tokens)
+        sign = 1
+        if toks and isinstance(toks[0], Lit) and toks[0].text[:1] in ('-', '+'):
+            sign = -1 if toks[0].text[0] == '-' else 1
+            rest = toks[0].text[1:]
+            toks = ([Lit(rest)] if rest else []) + toks[1:]
+            if toks and isinstance(toks[0], Dec) and not interp.ctx.branch(toks[0].term >= 0):
+                raise ValueError("invalid literal for int() with base 10")
+        val = tokens_to_int(interp, toks)
+        return SInt(-val.t) if sign < 0 else val
     if isinstance(v, SStr):
-        raise Unsupported("int() of an unconstrained symbolic string")
+        # an arbitrary string: either it denotes some integer, or int() raises ValueError (assumed raise-set)
+        if interp.ctx.choose(2, 'int(str)_succeeds'):
+            return interp.ctx.int('int_of_str', declare=False)
+        raise ValueError("invalid literal for int() with base 10")
     raise Unsupported("int() of %r" % (v,))
 
 
+class FracFloat(object):
+    """float of a decimal literal [int].[frac of `width` digits]; exact value int + frac / 10**width."""
+    pytype = float
+    _pyvc_model = True
+
+    def __init__(self, intpart, frac, width, scale=0, rounded=False):
+        self.intpart, self.frac, self.width, self.scale, self.rounded = intpart, frac, width, scale, rounded
+
+    def __bool__(self):
+        raise S.SymbolicLeak("truth of a symbolic float")
+
+    def pyvc_binop(self, interp, op, other, reflected):
+        import ast
+        if isinstance(op, ast.Mult) and isinstance(other, (int, float)) and not self.rounded and self.scale == 0:
+            for k in (3, 6):
+                if other == 10 ** k:
+                    return FracFloat(self.intpart, self.frac, self.width, k)
+        raise Unsupported("float arithmetic %s on a decimal-literal float" % type(op).__name__)
+
+    def round(self, interp, nd):
+        if nd is not None:
+            raise Unsupported("round(x, n) of a decimal-literal float")
+        return FracFloat(self.intpart, self.frac, self.width, self.scale, True)
+
+    def to_int(self, interp):
+        """int(round(float('.ddd') * 10**k)) == ddd * 10**(k-w) for w <= k: finite lemma C08.finite.frac_round."""
+        if self.rounded and self.width <= self.scale and self.intpart is None:
+            interp.ctx.note("finite lemma frac_round used (width %d, scale %d)" % (self.width, self.scale))
+            return SInt(z3.simplify(self.frac * 10 ** (self.scale - self.width)))
+        raise Unsupported("int() of a decimal-literal float outside the finite lemma (width %d, scale %d, rounded %s)" % (
+            self.width, self.scale, self.rounded))
+
+
 def lex_float(interp, v):
-    from .regexmodel import LexGroup
-    if isinstance(v, LexGroup):
-        return v.to_float(interp)
     if isinstance(v, SInt):
         # float(n) for an integer used only in comparisons and %i formatting: exact below 2**53.
         interp.ctx.check('float.exact_int', S.And(v > -2 ** 53, v < 2 ** 53))
         return v
+    if isinstance(v, FmtStr):
+        toks = list(v.tokens)
+        # split at the '.'
+        for i, t in enumerate(toks):
+            if isinstance(t, Lit) and '.' in t.text:
+                a, b = t.text.split('.', 1)
+                left = toks[:i] + ([Lit(a)] if a else [])
+                right = ([Lit(b)] if b else []) + toks[i + 1:]
+                ip = tokens_to_int(interp, left).t if left else None
+                if len(right) == 1 and isinstance(right[0], Dec):
+                    w = _fixed_width(interp, right[0])
+                    if w is None:
+                        raise Unsupported("float() of a fraction of unknown width")
+                    return FracFloat(ip, right[0].term, w)
+                if len(right) == 1 and isinstance(right[0], Lit) and right[0].text.isdigit():
+                    return FracFloat(ip, z3.IntVal(int(right[0].text)), len(right[0].text))
+                raise Unsupported("float() of %r" % (v,))
+        return tokens_to_int(interp, toks)
+    if isinstance(v, SStr):
+        raise Unsupported("float() of an unconstrained symbolic string")
     raise Unsupported("float() of %r" % (v,))
 
 
+def lex_decimal(interp, v):
+    """Decimal(text) for a token string 'i' or 'i.f': the exact rational i + f/10**w."""
+    if isinstance(v, FmtStr):
+        toks = list(v.tokens)
+        for i, t in enumerate(toks):
+            if isinstance(t, Lit) and '.' in t.text:
+                a, b = t.text.split('.', 1)
+                left = toks[:i] + ([Lit(a)] if a else [])
+                right = ([Lit(b)] if b else []) + toks[i + 1:]
+                ip = tokens_to_int(interp, left).t if left else z3.IntVal(0)
+                if len(right) == 1 and isinstance(right[0], Dec):
+                    w = _fixed_width(interp, right[0])
+                    if w is None:
+                        raise Unsupported("Decimal() of a fraction of unknown width")
+                    return SReal(z3.ToReal(ip) + z3.ToReal(right[0].term) / (10 ** w))
+                raise Unsupported("Decimal() of %r" % (v,))
+        return tokens_to_int(interp, toks)
+    raise Unsupported("Decimal() of %r" % (v,))
+
+
 def lex_round(interp, v, nd):
-    from .regexmodel import FracFloat
     if isinstance(v, FracFloat):
         return v.round(interp, nd)
+    if isinstance(v, SInt) and nd is None:
+        return v
     raise Unsupported("round() of %r" % (v,))
 
 
